@@ -178,8 +178,12 @@ func (c *ctx) sample(s interface{}) {
 	}
 }
 func (c *ctx) fail(what string, input interface{}, detail, class string) {
-	if len(c.failures) < 200 {
+	// at most 200 unclassified failures and 25 of each known class are kept: failures of a known
+	// finding must never crowd out a new one
+	kept := c.dist["kept:"+class]
+	if (class == "" && kept < 200) || (class != "" && kept < 25) {
 		c.failures = append(c.failures, failure{what, input, detail, class})
+		c.dist["kept:"+class]++
 	} else {
 		c.dist["failures_dropped"]++
 	}
